@@ -113,7 +113,7 @@ m = {
  "hooks": {"guard": "verif", "enable": "none needed: the checks are static and read /repo's source; nothing in /repo is instrumented",
            "baseline_off_cmd": "cd /repo && GOFLAGS=-mod=mod go test -json -vet=off -count=1 -timeout 25m ./...",
            "source_commits": [], "add_only": True},
- "engines": [{"name": "cogcheck", "path": "cogcheck/", "serves_properties": sorted(checks), "kind_free_text": "repository-specific static analyser over go/packages + go/types + go/cfg + go/ssa call graphs + text/template/parse trees"}],
+ "engines": [{"name": "cogcheck", "path": "cogcheck/", "serves_properties": sorted(checks), "kind_free_text": "repository-specific static analyser: go/packages + go/types over every non-test package of /repo (syntax trees, resolved callees, an AST-level cog-only call graph with class-hierarchy and func-field resolution, interprocedural write-set summaries over access paths) and text/template/parse trees of cog's templates; no execution of cog, no solver"}],
  "checks": [], "not_applicable": [],
  "notes": "All checks are static (source of /repo is loaded and type-checked on every run; cog is never executed). Levels are 'other': each check decides named structural necessary conditions of its property, listed in DESIGN.md and in the evidence file's coverage.explanation.",
 }
